@@ -29,6 +29,19 @@
                 when a status request raises inside it (pinned: the statuses seen during the wait are
                 only written once the job is complete; an error leaving the wait leaves them in memory).
 
+  Two more, found when `get_results` entered the model (`fixes/C19-results-delta-parameters.diff`,
+  `fixes/C19-get-results-status.diff`):
+  * `resFix`  — `RemoteJob._get_results` leaves the job's `_delta_parameters` alone (before: results carrying a
+                `result_mapping` made it replace the dictionary, after which `_create_payload_data` — every save of
+                the group, every rerun — raises `KeyError`);
+  * `gstFix`  — `JobGroup.get_results` writes a status that `job.get_results()` refreshed (before: `job.status` of an
+                UNKNOWN job is evaluated again inside `job.get_results()` and the answer stays in memory only).
+
+  Also modelled: `get_results` (per results request an answer `Rsp`), `track_progress` (rounds of refreshes), Ctrl-C
+  (`Ans.intr`: `KeyboardInterrupt` in a status request or in the `time.sleep` after it), deletion of the group's
+  file by name / with all groups / by date followed by re-opening the name (`created`, `clock`), and at the end the
+  directory of group files (`NS`: listing, deletion of all, deletion by date over many names).
+
   Abstractions (the correspondence harness realises them with concrete values):
   identifiers, job names, handler metadata (token, platform, url, proxies) and the untouched rest
   of the payload are natural-number tokens; of the payload the model keeps what the code touches:
